@@ -1304,7 +1304,11 @@ fn declare_classical_helper(
 ) -> asg::Stmt {
     if let Some(initializer) = &initializer {
         if initializer.get_type().is_const() {
-            context.insert_const_value(symbol_id.clone().unwrap(), initializer.clone());
+            // If the name was already bound (a RedeclarationError has been logged), there is
+            // no new symbol to associate the constant value with.
+            if let Ok(symbol_id) = &symbol_id {
+                context.insert_const_value(symbol_id.clone(), initializer.clone());
+            }
         }
     }
     asg::DeclareClassical::new(symbol_id, initializer).to_stmt()
